@@ -19,7 +19,29 @@ from .state import (
 )
 from .types import SV, TBool, TInt, TOpt, TRef, TSeq, Ty, Unsupported, lift
 
-FEAS_TIMEOUT_MS = 1500
+FEAS_TIMEOUT_MS = 250
+
+
+_quant_cache: dict = {}
+
+
+def _has_quant(e):
+    k = e.get_id()
+    r = _quant_cache.get(k)
+    if r is not None and r[0].eq(e):
+        return r[1]
+    todo = [e]
+    seen = 0
+    res = False
+    while todo and seen < 5000:
+        x = todo.pop()
+        seen += 1
+        if z3.is_quantifier(x):
+            res = True
+            break
+        todo.extend(x.children())
+    _quant_cache[k] = (e, res)
+    return res
 
 
 class Closure:
@@ -144,10 +166,16 @@ class EngineBase:
 
     # ---------------- decisions / feasibility ----------------
     def feasible(self, extra=None):
+        from .types import BACKGROUND
+
         s = z3.Solver()
         s.set("timeout", FEAS_TIMEOUT_MS)
+        for a in BACKGROUND:
+            s.add(a)
+        # quantified hypotheses are left out: pruning on fewer hypotheses is sound (it prunes less) and fast
         for p in self.st.pc:
-            s.add(p)
+            if not _has_quant(p):
+                s.add(p)
         if extra is not None:
             s.add(extra)
         return s.check() != z3.unsat
